@@ -21,7 +21,9 @@ func init() {
 	opts := func(string) simrt.Options { return simrt.Options{MaxSteps: 100000, RotateMaps: true} }
 	runner.Register("C10", runner.Scenario{Name: "sql-batching", Options: opts, Body: batchingBody})
 	runner.Register("C12", runner.Scenario{Name: "shard-limits", Options: opts, Body: limitsBody})
-	park := func(string) simrt.Options { return simrt.Options{MaxSteps: 100000, RotateMaps: true, ParkPermille: 15, MapPausePermille: 200, SpawnPausePermille: 30} }
+	park := func(string) simrt.Options {
+		return simrt.Options{MaxSteps: 100000, RotateMaps: true, ParkPermille: 15, MapPausePermille: 200, SpawnPausePermille: 30}
+	}
 	runner.Register("C10", runner.Scenario{Name: "sql-batching-preempt", Options: park, Body: batchingBody})
 	runner.Register("C12", runner.Scenario{Name: "shard-limits-preempt", Options: park, Body: limitsBody})
 }
